@@ -65,6 +65,19 @@ FAMILY = [
     "SELECT t1.a, (SELECT max(c) FROM int1.t2 WHERE t2.id = t1.id) AS m FROM int1.t1",
     "SELECT int1.t1.a FROM int1.t1 WHERE EXISTS (SELECT 1 FROM int1.t2 WHERE int1.t2.id = int1.t1.id)",
     "SELECT x.a FROM int1.t1 AS x WHERE x.a > (SELECT count(*) FROM int1.int1 AS int1 WHERE int1.id = x.id)",
+    # a fully qualified column (integration.table.column) in every expression position, also after a literal
+    "SELECT a FROM int1.t1 WHERE int1.t1.a IN (1, int1.t1.b)",
+    "SELECT a FROM int1.t1 WHERE 1 IN (int1.t1.a, 2, int1.t1.b)",
+    "SELECT a FROM int1.t1 WHERE int1.t1.a BETWEEN 1 AND int1.t1.b",
+    "SELECT coalesce(NULL, int1.t1.a, 0) AS v FROM int1.t1",
+    "SELECT CASE WHEN 1 = int1.t1.a THEN 0 ELSE int1.t1.b END AS k FROM int1.t1",
+    "SELECT CASE int1.t1.a WHEN 1 THEN int1.t1.b END AS k FROM int1.t1",
+    "SELECT 1 + int1.t1.a AS s, 2 * (3 - int1.t1.b) AS t FROM int1.t1 WHERE 0 < int1.t1.a",
+    "SELECT a FROM int1.t1 ORDER BY int1.t1.id DESC LIMIT 1",
+    "SELECT int1.t1.a AS a, count(int1.t1.b) AS n FROM int1.t1 GROUP BY int1.t1.a HAVING max(int1.t1.b) > 0",
+    "SELECT x.a FROM int1.t1 AS x JOIN int1.t2 ON 1 = 1 AND x.id = int1.t2.id",
+    "SELECT a FROM int1.t1 WHERE NOT (0 = int1.t1.a OR int1.t1.b IS NULL)",
+    "SELECT a FROM int1.t1 WHERE int1.t1.a IN (SELECT 0 + int1.t2.c FROM int1.t2)",
     "SELECT INT1.t1.a FROM INT1.t1",
     "SELECT a FROM Int1.t1 WHERE Int1.t1.b = 1",
 ]
